@@ -45,3 +45,7 @@ Fixpoint list_str_eqb (a b : list string) : bool :=
   | x :: s, y :: t => String.eqb x y && list_str_eqb s t
   | _, _ => false
   end.
+
+(* equality up to order for lists without repetitions (dict keys) *)
+Definition perm_str_eqb (a b : list string) : bool :=
+  Nat.eqb (List.length a) (List.length b) && forallb (fun x => mem_str x b) a && forallb (fun x => mem_str x a) b.
